@@ -1,6 +1,7 @@
 package runner
 
 import (
+	"bytes"
 	"encoding/json"
 
 	tq "github.com/facebookincubator/tacquito"
@@ -69,12 +70,42 @@ func (rc *realClient) abort() {
 }
 
 func (rc *realClient) loop() {
+	// replies the caller still holds, re-read after every later exchange
+	type kept struct {
+		op  int
+		rep *tq.Packet
+		h   tq.Header
+		was []byte
+	}
+	var held []kept
+	recheck := func() {
+		for k := range held {
+			hk := &held[k]
+			if hk.rep != nil && (!bytes.Equal(hk.rep.Body, hk.was) || *hk.rep.Header != hk.h) {
+				rc.s.w.Rec(world.Ev{Actor: "rc", Kind: "rc-retained-reply-changed", Conn: rc.c.conn.ID, A: int64(hk.op)})
+				hk.rep = nil
+			}
+		}
+	}
+	var reused *tq.Packet
+	var recv sut.Receivers
 	for i := range rc.stepCh {
 		op := rc.c.spec.Ops[i]
 		ev := RCEvent{Client: rc.c.i, Op: i}
 		switch op.Kind {
 		case "send":
 			p, err := buildLibPacket(op.Pkt)
+			if err == nil && rc.c.spec.ReusePkt {
+				// a caller that keeps one packet object and refills it for every request
+				if reused == nil {
+					reused = p
+				} else {
+					*reused.Header = tq.Header{Version: p.Header.Version, Type: p.Header.Type, SeqNo: p.Header.SeqNo,
+						Flags: p.Header.Flags, SessionID: p.Header.SessionID, Length: reused.Header.Length}
+					reused.Body = p.Body
+					p = reused
+				}
+			}
 			if err == nil {
 				// the cleartext the library produced (crypt works in place on p.Body)
 				rc.s.w.Rec(world.Ev{Actor: "rc", Kind: "rc-clear", Conn: rc.c.conn.ID, A: int64(i), Bytes: append([]byte(nil), p.Body...)})
@@ -93,6 +124,11 @@ func (rc *realClient) loop() {
 			mp := model.Packet{H: sut.LibHeader(*rep.Header), Body: append([]byte(nil), rep.Body...)}
 			ev.Reply = &mp
 			rc.s.w.Rec(world.Ev{Actor: "rc", Kind: "rc-reply", Conn: rc.c.conn.ID, A: int64(i), S: sut.J(mp.H), Bytes: mp.Body})
+			if why := recv.Header(*rep.Header); why != "" {
+				rc.s.w.Rec(world.Ev{Actor: "rc", Kind: "receiver-reuse-differs", Conn: rc.c.conn.ID, A: int64(i), S: why})
+			}
+			recheck()
+			held = append(held, kept{op: i, rep: rep, h: *rep.Header, was: mp.Body})
 			// device code decodes the reply body with the library decoder of the
 			// packet type's reply kind
 			if kind := replyKindOf(uint8(rep.Header.Type)); kind != "" {
@@ -100,10 +136,15 @@ func (rc *realClient) loop() {
 				if err := tq.Unmarshal(rep.Body, v); err != nil {
 					rc.s.w.Rec(world.Ev{Actor: "rc", Kind: "rc-decode-err", Conn: rc.c.conn.ID, A: int64(i), S: err.Error()})
 				} else {
-					rc.s.w.Rec(world.Ev{Actor: "rc", Kind: "rc-decoded", Conn: rc.c.conn.ID, A: int64(i), S: sut.J(sut.FromLib(v))})
+					d := sut.FromLib(v)
+					rc.s.w.Rec(world.Ev{Actor: "rc", Kind: "rc-decoded", Conn: rc.c.conn.ID, A: int64(i), S: sut.J(d)})
+					if why := recv.Body(kind, rep.Body, d); why != "" {
+						rc.s.w.Rec(world.Ev{Actor: "rc", Kind: "receiver-reuse-differs", Conn: rc.c.conn.ID, A: int64(i), S: why})
+					}
 				}
 			}
 		case "close":
+			recheck()
 			rc.client.Close()
 		}
 		rc.events = append(rc.events, ev)
